@@ -981,6 +981,7 @@ def eval (env : Env) : Nat → Expr → Vars → St → M (Val × St)
            | "len", [.ref a] => callMethod env n (.ref a) "__len__" [] [] st     -- `len(obj)` is `obj.__len__()`
            -- `isinstance(obj, C)` for an object and a class given by name: `C` is the object's class or one of
            -- its ancestors (`env.mro`, generated from the class statements of the source)
+           | "issubclass", [.str c, .str d] => M.pure (.bool (.lit ((env.mro c).contains d)), st)
            | "isinstance", [.ref a, .str c] =>
              M.pure (.bool (.lit (match st.heap a "__class__" with | some (.str c') => (env.mro c').contains c | _ => false)), st)
            | _, _ =>
